@@ -14,6 +14,7 @@ from pyvc.contract import Contract
 from pyvc.spec import *   # noqa
 from . import lib_graphql as GQ
 from .c06_input_types import name_, sub, const, call
+from .c16_meaning import SameMeaning
 from ariadne_codegen.graphql_schema_generators import fields as SF
 from ariadne_codegen.graphql_schema_generators import schema as SS
 from ariadne_codegen.graphql_schema_generators import utils as SU
@@ -86,8 +87,10 @@ def args_ast(args, m):
     return mk(ast.Dict, keys=V.VList(arg_keys(V.vd(args))), values=V.VList(arg_vals(V.vd(args), m)))
 
 
-class GenerateFieldType(Contract):
+class GenerateFieldType(SameMeaning, Contract):
     props = ("C16",)
+    arg_names = ("type_", "type_map_name")
+    reference = True
     target = MODF + "generate_field_type"
     trusted = GQ.TRUSTED + ["graphql-core constructors: keyword arguments become the attributes of the same name; GraphQLList/GraphQLNonNull wrap their argument"]
 
@@ -113,8 +116,9 @@ class GenerateFieldType(Contract):
         return [dict(type_=t, type_map_name="type_map") for t in ts]
 
 
-class GenerateArg(Contract):
+class GenerateArg(SameMeaning, Contract):
     props = ("C16",)
+    arg_names = ("arg", "type_map_name")
     target = MODF + "generate_arg"
 
     def setup(self, E):
@@ -138,8 +142,9 @@ class GenerateArg(Contract):
                                                           mkA(G.GraphQLList(G.GraphQLInt), default_value=[1, 2], deprecation_reason="old"), mkA(G.GraphQLInt, default_value=0))]
 
 
-class GenerateInputField(Contract):
+class GenerateInputField(SameMeaning, Contract):
     props = ("C16",)
+    arg_names = ("input_field", "type_map_name")
     target = MODF + "generate_input_field"
 
     def setup(self, E):
@@ -159,8 +164,9 @@ class GenerateInputField(Contract):
         return [dict(input_field=a, type_map_name="tm") for a in (mkF(G.GraphQLInt), mkF(G.GraphQLInt, default_value=None), mkF(G.GraphQLString, default_value="x", description="d"))]
 
 
-class GenerateArgs(Contract):
+class GenerateArgs(SameMeaning, Contract):
     props = ("C16",)
+    arg_names = ("args", "type_map_name")
     target = MODF + "generate_args"
 
     def setup(self, E):
@@ -189,8 +195,9 @@ class GenerateArgs(Contract):
         return [dict(args=a, type_map_name="tm") for a in ({}, {"a": mkA(G.GraphQLInt)}, {"b": mkA(G.GraphQLInt, default_value=None), "a": mkA(G.GraphQLString)})]
 
 
-class GenerateField(Contract):
+class GenerateField(SameMeaning, Contract):
     props = ("C16",)
+    arg_names = ("field", "type_map_name")
     target = MODF + "generate_field"
 
     def setup(self, E):
@@ -208,9 +215,15 @@ class GenerateField(Contract):
     def native_args(self, inputs):
         return [inputs["field"], inputs["type_map_name"]], {}
 
+    def samples(self, tier):
+        F, A = G.GraphQLField, G.GraphQLArgument
+        return [dict(field=f, type_map_name="tm") for f in (F(G.GraphQLInt), F(G.GraphQLList(GQ.OBJECT.build("User")), args={"n": A(G.GraphQLInt, default_value=None)}, description="d"),
+                                                            F(G.GraphQLNonNull(G.GraphQLID), deprecation_reason="old"))]
 
-class GenerateEnumValue(Contract):
+
+class GenerateEnumValue(SameMeaning, Contract):
     props = ("C16",)
+    arg_names = ("value",)
     target = MODF + "generate_enum_value"
 
     def setup(self, E):
@@ -228,27 +241,23 @@ class GenerateEnumValue(Contract):
     def native_args(self, inputs):
         return [inputs["value"]], {}
 
+    def samples(self, tier):
+        EV = G.GraphQLEnumValue
+        return [dict(value=v) for v in (EV("A"), EV(1, description="one"), EV("B", deprecation_reason="old"), EV(None))]
+
 
 # type map: every named type except the built-in ones, under its name, in order
+# defined in c16_named (dispatch over the kind of named type); generate_named_type is proved against it there
+NAMED_AST = z3.RecFunction("schema_named_type_ast", V.Val, V.Val, V.Val)
+
+
 def named_type_ast_placeholder(t, m):
-    return z3.Function("schema_named_type_ast", V.Val, V.Val, V.Val)(t, m)
+    return NAMED_AST(t, m)
 
 
 tm_keys = SpecMap("schema_tm_keys", lambda p: const(V.pkey(p)), keep_fn=lambda p: z3.Not(in_strs(V.pkey(p), list(SK.STANDARD_TYPES))))
 tm_vals = SpecMap("schema_tm_vals", lambda p, m: named_type_ast_placeholder(V.pval(p), m), keep_fn=lambda p, m: z3.Not(in_strs(V.pkey(p), list(SK.STANDARD_TYPES))),
                   param_sorts=(V.Val,))
-
-
-class GenerateNamedTypeOpaque(Contract):
-    """call-site contract for generate_named_type inside generate_type_map: a function of (type, type map name)"""
-    target = "ariadne_codegen.graphql_schema_generators.named_types:generate_named_type"
-    assumed = True
-
-    def result_term(self, A):
-        return named_type_ast_placeholder(A.type_, A.type_map_name)
-
-    def ensures(self, A, res):
-        return {}
 
 
 class GenerateTypeMap(Contract):
@@ -279,4 +288,7 @@ class GenerateTypeMap(Contract):
 
 
 CONTRACTS = [GenerateFieldType(), GenerateArg(), GenerateInputField(), GenerateArgs(), GenerateField(), GenerateEnumValue(),
-             GenerateTypeMap(), GenerateNamedTypeOpaque()]
+             GenerateTypeMap()]
+
+from .c16_named import NEW_CONTRACTS   # noqa: E402  (c16_named builds on the spec functions above)
+CONTRACTS = CONTRACTS + NEW_CONTRACTS
